@@ -169,7 +169,27 @@ pub fn gen_heap(args: &Args) {
             }
             writeln!(f, "{}", rec).unwrap();
         };
-        if mode == "runs" {
+        if mode == "sessions" {
+            // a retained (Compiler, VM) pair: the ledger of the whole session, dropped at its end
+            let s_ = seed.wrapping_mul(3_000_017).wrapping_add(i) ^ 0x5e5;
+            let nl = 3 + (i % 8) as usize;
+            let mut cfgd = crate::session::gen_session_texts(s_, nl);
+            // heap values in every session: literals in rejected and failing lines, heap-valued globals
+            cfgd.insert(0, "stel tekst_g = \"globaal\"; stel lijst_g = [1.5, \"in lijst\", [2.5]]".to_string());
+            cfgd.insert(2.min(cfgd.len()), "print(\"hallo {}\", onbekende_naam, 2.25)".to_string());
+            cfgd.insert(3.min(cfgd.len()), "stel kort = \"leeft kort\"; lijst_g[0] = 9.75; 1 / 0".to_string());
+            cfgd.push("print(\"hallo {}\", tekst_g, 2.25); lijst_g".to_string());
+            cfgd.push("[tekst_g, lijst_g[2], \"in lijst\"][5]".to_string());
+            cfgd.push("lengte(tekst_g) + lengte(lijst_g)".to_string());
+            let lines: Vec<Value> = cfgd.iter().map(|t| json!({"text":t})).collect();
+            let r = w.request(&json!({"op":"session","heap":true,"lines":lines}));
+            let mut rr = r.clone();
+            let worst = r["obs"].as_array().and_then(|a| a.iter().find(|o| o["class"] == "Panic" || o["class"] == "Fault").cloned());
+            rr["obs"] = worst.unwrap_or(json!({"class": if r.get("heap").is_some() { "Value" } else { "Abort" },"out":[]}));
+            emit(&rr, -2, id);
+            writeln!(src, "{}", json!({"id":id,"text":cfgd.join("\n")})).unwrap();
+            id += 1;
+        } else if mode == "runs" {
             emit(&r, -1, id);
             writeln!(src, "{}", json!({"id":id,"text":text})).unwrap();
             id += 1;
